@@ -69,7 +69,14 @@ _T = "SigModel.Perm."
 CONFIG = dict(
     modules=["SigModel.Props.C08"],
     theorems=[_T + t for t in [
-        "C08_code_sound", "C08_code_names",
+        "C08_code_sound", "C08_code_names", "C08_code_is_repaired", "hasPerm_code", "Permitted_code", "MaySignal_code",
+        "sdpAllowed_spec", "C08_offer_decision", "step_ok", "reachable_inv",
+        "C08_publish_needs_permission", "C08_publish_needs_permission_code", "C08_offer_refused", "C08_candidate_refused",
+        "C08_perms_last_set", "C08_revocation_closes", "C08_revocation_closes_code", "C08_update_then_sweep",
+        "C08_join_then_sweep", "C08_subscribe_same_call", "C08_subscriber_origin", "C08_request_refused", "C08_sameCall_iff",
+        "C08_incall_needs_room", "C08_control_transient_gates", "C08_control_transient_gates_code", "C08_control_dropped",
+        "C08_transient_refused", "C08_store_changes",
+        "C08_early_return_leaves_screen", "C08_join_without_sweep_leaves_publisher",
     ]],
     generated=["Perm"],
     harness=dict(pkg="signaling", test="TestVerifC08", go="go1.26"),
